@@ -339,7 +339,7 @@ End ORACLE.
 
 (* ------------------------------------------------------------------ the declarative reading *)
 
-(* what the conjuncts of a scan say, as facts about the rows they admit *)
+(* what the conjuncts of a scan say, as facts about the rows they keep *)
 Definition has_bnd (sc : scan) (b : bnd) : Prop := exists e, List.In e (sc_conj sc) /\ List.In b (classify sc e).
 
 Record ts_bounded (w : window) (sc : scan) : Prop := {
